@@ -55,8 +55,9 @@ func bytesToInts(b []byte) []int {
 // ---------------------------------------------------------------- seeded field values
 
 type gen struct {
-	r    *rand.Rand
-	keys []*ecdsa.PrivateKey
+	r     *rand.Rand
+	keys  []*ecdsa.PrivateKey
+	small bool // texts and blobs stay below ~60 bytes (instances whose encodings are logged byte by byte)
 }
 
 func newGen(seed int64) *gen {
@@ -129,6 +130,9 @@ func (g *gen) blob(f string) []byte {
 		return []byte{byte(g.r.Intn(128))}
 	}
 	n := []int{1, 2, 31, 32, 55, 56, 57, 64, 65, 200, 300}[g.r.Intn(11)]
+	if g.small && n > 57 {
+		n = 3
+	}
 	b := g.bytes(n)
 	if n == 1 {
 		b[0] |= 0x80
@@ -146,6 +150,9 @@ func (g *gen) text(f string) string {
 		return string(letters[g.r.Intn(len(letters))])
 	}
 	n := []int{2, 10, 55, 56, 100, 256, 1024}[g.r.Intn(7)]
+	if g.small && n > 56 {
+		n = 5
+	}
 	b := make([]byte, n)
 	for i := range b {
 		b[i] = letters[g.r.Intn(len(letters))]
@@ -465,10 +472,30 @@ type stubProc struct{ a *stubAcc }
 
 func (p stubProc) GetAccount(common.Address) types.AccountAccessor { return p.a }
 
+// must: the real code refused an honest operation while an input was being constructed (signing, marshalling an
+// honestly built object, decoding its own JSON).  That is an observation about the code under test, not a harness
+// failure: it is recorded in the row as "panic" (see realGuard), which no trace action consumes.
 func must(err error) {
 	if err != nil {
-		engine.Failf("codecshapes: constructing input: %v", err)
+		engine.Realf("codecshapes: constructing an honest input: %v", err)
 	}
+}
+
+// realGuard runs the construction of an honest input; an engine.Realf raised inside is recorded in the row.  Any other
+// panic (a bug of the harness, or a crash of the real code that the engine classifies by its stack) propagates.
+func realGuard(r row, f func()) (ok bool) {
+	defer func() {
+		if p := recover(); p != nil {
+			if s, isS := p.(string); isS && strings.HasPrefix(s, "REAL-CODE FAILURE") {
+				r["panic"] = s
+				ok = false
+				return
+			}
+			panic(p)
+		}
+	}()
+	f()
+	return true
 }
 
 func buildLog(g *gen, t, nv, ex, ver string) *types.ChangeLog {
@@ -825,31 +852,7 @@ func msgDecode(b []byte, into interface{}) error {
 func instance(g *gen, typ string, sh tla.Value, r row) {
 	switch typ {
 	case "header":
-		h := &types.Header{ParentHash: g.hash(), MinerAddress: g.addr(), VersionRoot: g.hash()}
-		root := func(f string) common.Hash {
-			switch f {
-			case "emptyTrie":
-				return merkle.EmptyTrieHash
-			case "zero":
-				return common.Hash{}
-			}
-			return g.hash()
-		}
-		h.TxRoot, h.LogRoot = root(sh.F("txRoot").S()), root(sh.F("logRoot").S())
-		n := sh.F("nums").S()
-		h.Height, h.GasLimit, h.GasUsed, h.Time = g.u32(n), g.u64(n), g.u64(n), g.u32(n)
-		if sh.F("deputyRoot").S() == "set" {
-			h.DeputyRoot = g.bytes(32)
-		} else if g.r.Intn(2) == 0 {
-			h.DeputyRoot = []byte{}
-		}
-		if sh.F("extra").S() == "set" {
-			h.Extra = g.text([]string{"byte", "long"}[g.r.Intn(2)])
-		}
-		if sh.F("sign").S() == "signed" {
-			h.SignData = sign(h.Hash(), g.keys[1])
-		}
-		roundTrip(r, headerCodec(h))
+		roundTrip(r, headerCodec(buildHeader(g, sh)))
 	case "block":
 		roundTrip(r, blockCodec(buildBlock(g, sh.F("txs").I(), sh.F("logs").I(), sh.F("confirms").I(), sh.F("deputies").I())))
 	case "tx":
@@ -933,69 +936,117 @@ func instance(g *gen, typ string, sh tla.Value, r row) {
 		if n := sh.F("signers").I(); n > 0 || g.r.Intn(2) == 0 {
 			a.Signers = g.signers(n)
 		}
-		roundTrip(r, codec{orig: a,
-			encode: func() ([]byte, error) { return rlp.EncodeToBytes(a) },
-			decode: func(b []byte) (interface{}, error) {
-				var d types.AccountData
-				err := rlp.DecodeBytes(b, &d)
-				return &d, err
-			},
-			obs: func(o interface{}) (string, string, string, string) {
-				return projAccount(o.(*types.AccountData)), "", "", ""
-			},
-			reenc: encPtr})
+		roundTrip(r, accountCodec(a))
 	case "deputy":
-		d := &types.DeputyNode{MinerAddress: g.addr(), Rank: g.u32(sh.F("rank").S()), Votes: g.big(sh.F("votes").S())}
-		if sh.F("nodeID").S() == "full" {
-			d.NodeID = crypto.PrivateKeyToNodeID(g.keys[g.r.Intn(4)])
-		} else if g.r.Intn(2) == 0 {
-			d.NodeID = []byte{}
-		}
-		roundTrip(r, codec{orig: d,
-			encode: func() ([]byte, error) { return rlp.EncodeToBytes(d) },
-			decode: func(b []byte) (interface{}, error) {
-				var x types.DeputyNode
-				err := rlp.DecodeBytes(b, &x)
-				return &x, err
-			},
-			obs: func(o interface{}) (string, string, string, string) {
-				x := o.(*types.DeputyNode)
-				h := x.Hash()
-				root := types.DeputyNodes{x}.MerkleRootSha()
-				return projDeputy(x), "", hx(h[:]) + "/" + hx(root[:]), ""
-			},
-			reenc: encPtr})
+		roundTrip(r, deputyCodec(buildDeputy(g, sh)))
 	case "asset":
 		a := g.asset(sh.F("profile").I(), sh.F("supply").S(), sh.F("divisible").B(), sh.F("replenishable").B(), sh.F("nums").S())
-		roundTrip(r, codec{orig: a,
-			encode: func() ([]byte, error) { return rlp.EncodeToBytes(a) },
-			decode: func(b []byte) (interface{}, error) { // as Account.GetAssetCode does
-				var x types.Asset
-				x.TotalSupply = new(big.Int)
-				x.Profile = make(types.Profile)
-				err := rlp.DecodeBytes(b, &x)
-				return &x, err
-			},
-			obs:   func(o interface{}) (string, string, string, string) { return projAsset(o.(*types.Asset)), "", "", "" },
-			reenc: encPtr})
+		roundTrip(r, assetCodec(a))
 	case "equity":
 		e := &types.AssetEquity{AssetCode: g.hash(), AssetId: g.hash(), Equity: g.big(sh.F("equity").S())}
-		roundTrip(r, codec{orig: e,
-			encode: func() ([]byte, error) { return rlp.EncodeToBytes(e) },
-			decode: func(b []byte) (interface{}, error) {
-				var x types.AssetEquity
-				err := rlp.DecodeBytes(b, &x)
-				return &x, err
-			}, // as Account.GetEquityState
-			obs: func(o interface{}) (string, string, string, string) {
-				return projEquity(o.(*types.AssetEquity)), "", "", ""
-			},
-			reenc: encPtr})
+		roundTrip(r, equityCodec(e))
 	case "msg":
 		roundTrip(r, msgCodec(g, sh.F("m").S(), sh.F("v").S()))
 	default:
 		engine.Failf("codecshapes: unknown type %q", typ)
 	}
+}
+
+func buildHeader(g *gen, sh tla.Value) *types.Header {
+	h := &types.Header{ParentHash: g.hash(), MinerAddress: g.addr(), VersionRoot: g.hash()}
+	root := func(f string) common.Hash {
+		switch f {
+		case "emptyTrie":
+			return merkle.EmptyTrieHash
+		case "zero":
+			return common.Hash{}
+		}
+		return g.hash()
+	}
+	h.TxRoot, h.LogRoot = root(sh.F("txRoot").S()), root(sh.F("logRoot").S())
+	n := sh.F("nums").S()
+	h.Height, h.GasLimit, h.GasUsed, h.Time = g.u32(n), g.u64(n), g.u64(n), g.u32(n)
+	if sh.F("deputyRoot").S() == "set" {
+		h.DeputyRoot = g.bytes(32)
+	} else if g.r.Intn(2) == 0 {
+		h.DeputyRoot = []byte{}
+	}
+	if sh.F("extra").S() == "set" {
+		h.Extra = g.text([]string{"byte", "long"}[g.r.Intn(2)])
+	}
+	if sh.F("sign").S() == "signed" {
+		h.SignData = sign(h.Hash(), g.keys[1])
+	}
+	return h
+}
+
+func buildDeputy(g *gen, sh tla.Value) *types.DeputyNode {
+	d := &types.DeputyNode{MinerAddress: g.addr(), Rank: g.u32(sh.F("rank").S()), Votes: g.big(sh.F("votes").S())}
+	if sh.F("nodeID").S() == "full" {
+		d.NodeID = crypto.PrivateKeyToNodeID(g.keys[g.r.Intn(4)])
+	} else if g.r.Intn(2) == 0 {
+		d.NodeID = []byte{}
+	}
+	return d
+}
+
+func deputyCodec(d *types.DeputyNode) codec {
+	return codec{orig: d,
+		encode: func() ([]byte, error) { return rlp.EncodeToBytes(d) },
+		decode: func(b []byte) (interface{}, error) {
+			var x types.DeputyNode
+			err := rlp.DecodeBytes(b, &x)
+			return &x, err
+		},
+		obs: func(o interface{}) (string, string, string, string) {
+			x := o.(*types.DeputyNode)
+			h := x.Hash()
+			root := types.DeputyNodes{x}.MerkleRootSha()
+			return projDeputy(x), "", hx(h[:]) + "/" + hx(root[:]), ""
+		},
+		reenc: encPtr}
+}
+
+func accountCodec(a *types.AccountData) codec {
+	return codec{orig: a,
+		encode: func() ([]byte, error) { return rlp.EncodeToBytes(a) },
+		decode: func(b []byte) (interface{}, error) {
+			var d types.AccountData
+			err := rlp.DecodeBytes(b, &d)
+			return &d, err
+		},
+		obs: func(o interface{}) (string, string, string, string) {
+			return projAccount(o.(*types.AccountData)), "", "", ""
+		},
+		reenc: encPtr}
+}
+
+func assetCodec(a *types.Asset) codec {
+	return codec{orig: a,
+		encode: func() ([]byte, error) { return rlp.EncodeToBytes(a) },
+		decode: func(b []byte) (interface{}, error) { // as Account.GetAssetCode does
+			var x types.Asset
+			x.TotalSupply = new(big.Int)
+			x.Profile = make(types.Profile)
+			err := rlp.DecodeBytes(b, &x)
+			return &x, err
+		},
+		obs:   func(o interface{}) (string, string, string, string) { return projAsset(o.(*types.Asset)), "", "", "" },
+		reenc: encPtr}
+}
+
+func equityCodec(e *types.AssetEquity) codec {
+	return codec{orig: e,
+		encode: func() ([]byte, error) { return rlp.EncodeToBytes(e) },
+		decode: func(b []byte) (interface{}, error) {
+			var x types.AssetEquity
+			err := rlp.DecodeBytes(b, &x)
+			return &x, err
+		}, // as Account.GetEquityState
+		obs: func(o interface{}) (string, string, string, string) {
+			return projEquity(o.(*types.AssetEquity)), "", "", ""
+		},
+		reenc: encPtr}
 }
 
 func headerCodec(h *types.Header) codec {
@@ -1404,11 +1455,13 @@ func drive(args []string) error {
 			gg := newGen(int64(id>>1) ^ (*seed * 1000003) ^ int64(k*7919))
 			mutationSeed = int64(id>>1) ^ (*seed * 15485863)
 			r := row{"ev": "shape", "typ": typ, "sh": sh.JSON(), "var": k}
-			if typ == "address" {
-				addressRow(gg, sh, r)
-			} else {
-				instance(gg, typ, sh, r)
-			}
+			realGuard(r, func() {
+				if typ == "address" {
+					addressRow(gg, sh, r)
+				} else {
+					instance(gg, typ, sh, r)
+				}
+			})
 			if _, bad := r["panic"]; bad {
 				panics++
 			}
